@@ -12,8 +12,12 @@ def _unbold_heading_transformer(element: Element) -> None:
     Transformer function to unbold headings where the entire text is bold.
     """
     if isinstance(element, (block.Heading, block.SetextHeading)):
-        # Check if the heading consists *only* of a single StrongEmphasis element
-        if len(element.children) == 1 and isinstance(element.children[0], inline.StrongEmphasis):
+        # Check if the heading consists *only* of a single StrongEmphasis element.
+        # Bold nested directly in bold (`# **__text__**`) is peeled completely, so that a
+        # second run has nothing left to do.
+        while len(element.children) == 1 and isinstance(
+            element.children[0], inline.StrongEmphasis
+        ):
             # Replace the heading's children with the children of the StrongEmphasis element
             strong_emphasis_node = element.children[0]
             # Type checker struggles here, but StrongEmphasis children should be Elements.
@@ -21,9 +25,9 @@ def _unbold_heading_transformer(element: Element) -> None:
 
         # Handle the case where the heading is bold and italic (StrongEmphasis inside Emphasis or vice versa)
         # ***text***  -> *text*
-        elif len(element.children) == 1 and isinstance(element.children[0], inline.Emphasis):
+        if len(element.children) == 1 and isinstance(element.children[0], inline.Emphasis):
             emphasis_node = element.children[0]
-            if len(emphasis_node.children) == 1 and isinstance(
+            while len(emphasis_node.children) == 1 and isinstance(
                 emphasis_node.children[0], inline.StrongEmphasis
             ):
                 strong_node = emphasis_node.children[0]
